@@ -110,10 +110,23 @@ def main(tier):
                 if j == 3:
                     p2["ign"] = True
                 progs.append(p2)
+        if b <= 3:
+            from checks import c09_check
+            for ti, (name, prog) in enumerate(c09_check.templates(tier)):
+                for k, inp in enumerate(c09_check.inputs_for("%s.%d" % (name, ti), tier)):
+                    if k % 2 and tier == "quick":
+                        continue
+                    spec = {n: {"v": v, "ty": "int"} for n, v in inp.items()}
+                    if name.startswith("arr"):
+                        spec["a"] = {"v": [1, 2, 3], "ty": "array"}
+                    if name.startswith("mat"):
+                        spec["m"] = {"v": [[1, 2], [3, 4]], "ty": "matrix"}
+                    progs.append({"id": "cf%d/%s.%d/%d" % (b, name, ti, k), "ign": False, "meta": {"op": "cf_" + name, "cfkey": "%s.%d" % (name, ti)},
+                                  "steps": [{"op": "cf", "prog": prog, "inputs": spec}]})
         traces = common.run_programs(cfg, progs)
         groups = {}
         for p, t in zip(progs, traces):
-            groups.setdefault(key_of(p), []).append(t)
+            groups.setdefault(p["meta"]["cfkey"] if "cfkey" in p.get("meta", {}) else key_of(p), []).append(t)
         gl = []
         for kk, ts in groups.items():
             if len(ts) < 2:
